@@ -83,6 +83,7 @@ fn is_call_pc(pc: &str) -> Option<CallKind> {
         "post" => CallKind::Post,
         "create" => CallKind::Create,
         "pcreate" => CallKind::Pcreate,
+        "pred" => CallKind::Pred,
         _ => return None,
     })
 }
@@ -125,15 +126,21 @@ pub fn compare(w: &World, p: &Post, acting: Option<usize>) -> Vec<String> {
             TState::Pending { gate: Some((k, i)) } => got = format!("{}[{}]~", k.name(), i),
             TState::Hung => got = "HUNG".into(),
         }
-        if let Some(k) = is_call_pc(pc) {
+        if let Some(CallKind::Pred) = is_call_pc(pc) {
+            // retain walk: the model counts positions, the code counts calls; compare the object instead
+            expect = match &w.ts[ix] {
+                TState::AtCall { kind: CallKind::Pred, idx, obj, .. } if p.idle.get(cnt.wrapping_sub(1)) == Some(obj) => format!("pred[{}]", idx),
+                _ => format!("pred on object {:?}", p.idle.get(cnt.wrapping_sub(1))),
+            };
+        } else if let Some(k) = is_call_pc(pc) {
             let i = if matches!(k, CallKind::Create | CallKind::Recycle) { 0 } else { cnt };
             expect = format!("{}[{}]{}", k.name(), i, if susp { "~" } else { "" });
         } else {
             expect = pc.to_string();
         }
         chk!(format!("task {} at", name), got, expect);
-        if let TState::AtCall { obj, rc, .. } = &w.ts[ix] {
-            if *obj > 0 {
+        if let TState::AtCall { obj, rc, kind, .. } = &w.ts[ix] {
+            if *obj > 0 && *kind != CallKind::Pred {
                 if let Some(mo) = p.obj.get(name) {
                     chk!(format!("task {} call object", name), *obj, *mo);
                 }
@@ -195,7 +202,7 @@ pub fn command_of(st: &Step) -> Option<Cmd> {
         "StartClose" => Cmd::StartClose,
         "StartRetain" => Cmd::StartRetain,
         "GUsers" | "GAcq" | "GPop" | "CSize" | "CUnres" | "UDrop" | "GExit" | "XUsers" | "RetUsers" | "RetLock"
-        | "RetAdd" | "TkUsers" | "TkLock" | "TkAdd" | "RsLock" | "RsForget" | "RsGrow" | "ClLock" | "RtStatus" => {
+        | "RetAdd" | "TkUsers" | "TkLock" | "TkAdd" | "RsLock" | "RsForget" | "RsGrow" | "ClLock" | "RtStatus" | "RtLock" => {
             Cmd::Go(None)
         }
         "RtWalk" => Cmd::Go(Some(
@@ -204,6 +211,8 @@ pub fn command_of(st: &Step) -> Option<Cmd> {
                 .map(|a| a.iter().filter_map(|v| v.as_u64()).map(|v| v as u32).collect())
                 .unwrap_or_default(),
         )),
+        "RtPred" => Cmd::Outcome(if st.x.first().and_then(|v| v.as_bool()).unwrap_or(true) { Outcome::Ok } else { Outcome::Err }),
+        "Tick" => Cmd::Tick,
         "GWaitPoll" => Cmd::Poll,
         "GWaitCancel" | "Cancel" => Cmd::Cancel,
         "GWaitExpire" | "Expire" => Cmd::Expire,
@@ -248,7 +257,7 @@ pub fn applicable(w: &World, t: usize, cmd: &Cmd) -> bool {
         (TState::AtCall { .. }, Cmd::Outcome(_)) => true,
         (TState::Pending { gate: Some(_) }, Cmd::Resume(_)) => true,
         (TState::Pending { gate: None }, Cmd::Poll) => true,
-        (TState::Pending { .. }, Cmd::Cancel | Cmd::Expire) => true,
+        (TState::Pending { .. }, Cmd::Cancel | Cmd::Expire | Cmd::Tick) => true,
         _ => false,
     }
 }
@@ -284,7 +293,6 @@ pub fn run_path(cfg: &Cfg, path: &PathRec, rec: &mut Recorder) -> PathResult {
                 continue;
             }
             let before = w.ts[t].clone();
-            let cmd = retain_script(&w, t, cmd);
             w.send(t, cmd);
             rec.step(&w, Some(t), st, Some(&before));
             if w.hung {
